@@ -47,6 +47,8 @@ func hostileExec(c *Ctx, op string) {
 		os.Symlink(filepath.Join(victim, "passwd"), target)
 	case "linkdir": // … to a directory outside
 		os.Symlink(filepath.Join(victim, "dir"), target)
+	case "below-missing": // the target lies below directories that do not exist: they are outside the target too
+		target = filepath.Join(sandbox, "missing", "deeper", "target")
 	case "populated":
 		os.Mkdir(target, 0755)
 		os.Mkdir(filepath.Join(target, "d"), 0755)
@@ -365,6 +367,12 @@ func hostileEngine(c *Ctx) {
 			}
 		}
 	}
+	for _, hs := range [][]RawHdr{{dir("./"), file("x")}, {dir("./"), file("../escape")}, {file(".")}} {
+		for _, m := range []string{"direct", "copy", "mount", "cli"} {
+			hostileExec(c, fmt.Sprintf("hostile %s below-missing %s", m, hdrsTok(hs)))
+		}
+	}
+	hostileExec(c, fmt.Sprintf("hostile zip below-missing %s", hdrsTok([]RawHdr{dir("./"), file("x")})))
 	for i, hs := range corpus {
 		if i%4 == 0 || i < 3 {
 			hostileExec(c, fmt.Sprintf("hostile zip absent %s", hdrsTok(hs)))
